@@ -234,7 +234,7 @@ func main() {
 		name string
 		run  func(*hctx, *lib.RNG)
 	}{{"padding", secPadding}, {"merkle", secMerkle}, {"rs", secRS}, {"e2e", secE2E}, {"sched", secSched}, {"validator", secValidator},
-		{"wire", secWire}, {"timecache", secTimecache}, {"processor", secProcessor}, {"sizes", secSizes}} {
+		{"wire", secWire}, {"timecache", secTimecache}, {"processor", secProcessor}, {"sizes", secSizes}, {"concurrent", secConcurrent}, {"lookups", secLookups}} {
 		// C19_SECTIONS=a,b (debugging aid only; ./check never sets it): run just these sections
 		if only := os.Getenv("C19_SECTIONS"); only != "" && !strings.Contains(","+only+",", ","+sec.name+",") {
 			continue
@@ -277,6 +277,14 @@ func runReplay(h *hctx, path string) {
 	case "pad":
 		b, _ := unhx(str(rp["msg"]))
 		padCase(h, b, num(rp["k"]))
+	case "concurrent":
+		concReplay(h, rp)
+	case "lookups":
+		lookupCase(h, num(rp["n"]), num(rp["local"]))
+	case "merkle-depth":
+		depthCase(h, num(rp["n"]))
+	case "committee-size":
+		committeeSizeCase(h, num(rp["n"]))
 	case "timecache":
 		secTimecache(h, lib.NewRNG(1))
 	case "timecache-run":
@@ -294,6 +302,14 @@ func runReplay(h *hctx, path string) {
 		var sc procScenario
 		if err := json.Unmarshal(b, &sc); err != nil {
 			h.res.Fatalf("replay: %v", err)
+			return
+		}
+		if sc.Conc > 0 {
+			if r, _ := rp["race"].(bool); r {
+				concRace(h, []*procScenario{&sc})
+			} else {
+				concProcEval(h, &sc, runProcChild(&sc), false)
+			}
 			return
 		}
 		if r, _ := rp["race"].(bool); r {
